@@ -59,7 +59,9 @@ def run(ctx, rep):
     i = 0
     for i in range(n):
         stream = ctx.rng.choice(weights)
-        spec = add_incompat(ctx.rng, c02.gen_spec(ctx.rng, stream))
+        spec = add_incompat(ctx.rng, c02.gen_overlap(ctx.rng) if stream == 'overlap' else c02.gen_spec(ctx.rng, stream))
+        if ctx.rng.random() < .5:
+            spec['choices_first'] = True     # selection choices declared before the derivation edges
         if not ctx.mine(i):
             continue
         check_graph(ctx, rep, spec, stream)
